@@ -9,6 +9,7 @@
 //! filtered out of the reported call slices: the model logs the four provider
 //! queries only.
 use futures::FutureExt;
+use std::future::Future;
 use resolvo::*;
 use serde_json::{json, Value};
 use std::panic::{catch_unwind, AssertUnwindSafe};
@@ -88,6 +89,100 @@ fn query(cache: &SolverCache<Prov>, op: &Value) -> Value {
         }
         _ => panic!("op {k}"),
     }
+}
+
+/// one query on the real cache, awaited
+async fn query_a(cache: &SolverCache<Prov>, op: &Value) -> Value {
+    let k = op[0].as_str().unwrap();
+    let err = || json!(["err"]);
+    match k {
+        "cands" => {
+            let n = op[1].as_u64().unwrap() as u32;
+            match cache.get_or_cache_candidates(NameId(n)).await {
+                Ok(c) => json!(["cands", ids(&c.candidates), c.favored.map(|s| s.0)]),
+                Err(_) => err(),
+            }
+        }
+        "match" | "nonmatch" => {
+            let v = VersionSetId(op[1].as_u64().unwrap() as u32);
+            let r = if k == "match" {
+                cache.get_or_cache_matching_candidates(v).await
+            } else {
+                cache.get_or_cache_non_matching_candidates(v).await
+            };
+            match r {
+                Ok(l) => json!(["list", ids(l)]),
+                Err(_) => err(),
+            }
+        }
+        "sorted" => {
+            let r: Req = serde_json::from_value(op[1].clone()).unwrap();
+            match cache.get_or_cache_sorted_candidates(conv_req(&r)).await {
+                Ok(l) => json!(["list", ids(l)]),
+                Err(_) => err(),
+            }
+        }
+        "deps" => {
+            let s = op[1].as_u64().unwrap() as u32;
+            match cache.get_or_cache_dependencies(SolvableId(s)).await {
+                Ok(Dependencies::Known(k)) => json!(["deps", {
+                    "reqs": k.requirements.iter().map(req_json).collect::<Vec<_>>(),
+                    "cons": k.constrains.iter().map(|v| v.0).collect::<Vec<_>>()}]),
+                Ok(Dependencies::Unknown(_)) => json!(["deps", null]),
+                Err(_) => err(),
+            }
+        }
+        _ => panic!("op {k}"),
+    }
+}
+
+/// all the queries are started together on a fresh cache whose provider yields in get_candidates /
+/// get_dependencies, so that queries for one key overlap; returns the answers (per query) and all provider
+/// calls of the run
+fn run_overlap(u: &Universe, ops: &[Value]) -> Value {
+    let prov = Prov::with_mode(u.clone(), Mode::YieldOnce);
+    let cache = SolverCache::new(prov);
+    let all = futures::future::join_all(ops.iter().map(|op| query_a(&cache, op)));
+    let mut all = std::pin::pin!(all);
+    let waker = futures::task::noop_waker();
+    let mut cx = std::task::Context::from_waker(&waker);
+    let mut answers = None;
+    for _ in 0..100_000 {
+        if let std::task::Poll::Ready(v) = all.as_mut().poll(&mut cx) {
+            answers = Some(v);
+            break;
+        }
+    }
+    match answers {
+        Some(a) => json!({"answers": a, "calls": calls_from(cache.provider(), 0)}),
+        None => json!({"answers": null, "calls": calls_from(cache.provider(), 0)}),
+    }
+}
+
+fn gen_overlap_ops(r: &mut Rng, u: &Universe, maxops: u64) -> Vec<Value> {
+    let nv = u.vss.len() as u64;
+    let ns = u.sols.len() as u64;
+    let nu = u.unions.len() as u64;
+    let nops = 2 + r.below(maxops.min(10));
+    let mut ops: Vec<Value> = vec![];
+    while (ops.len() as u64) < nops {
+        // the same query again, half of the time: that is what has to be shared
+        if !ops.is_empty() && r.chance(1, 2) {
+            let o = ops[r.below(ops.len() as u64) as usize].clone();
+            ops.push(o);
+            continue;
+        }
+        let op = match r.below(8) {
+            0 | 1 => json!(["match", r.below(nv)]),
+            2 => json!(["nonmatch", r.below(nv)]),
+            3 | 4 => json!(["sorted", {"s": r.below(nv)}]),
+            5 if nu > 0 => json!(["sorted", {"u": r.below(nu)}]),
+            6 if ns > 0 => json!(["deps", r.below(ns)]),
+            _ => json!(["sorted", {"s": r.below(nv)}]),
+        };
+        ops.push(op);
+    }
+    ops
 }
 
 /// runs the operations on a fresh cache; returns the per-operation outputs
@@ -175,7 +270,12 @@ fn main() {
             v
         };
         let u: Universe = serde_json::from_value(c["u"].clone()).unwrap();
-        if c["mode"] == "solve" {
+        if c["mode"] == "overlap" {
+            let ops: Vec<Value> = c["ops"].as_array().unwrap().clone();
+            let o = run_overlap(&u, &ops);
+            println!("{}", json!({"id": c["id"], "mode": "overlap", "u": u, "ops": ops,
+                "answers": o["answers"], "calls": o["calls"]}));
+        } else if c["mode"] == "solve" {
             let p: Prob = serde_json::from_value(c["p"].clone()).unwrap();
             let o = run_solve(&u, &p);
             println!("{}", json!({"id": c["id"], "mode": "solve", "u": u, "p": p,
@@ -190,7 +290,12 @@ fn main() {
     for id in skip..skip + count {
         let mut r = Rng::new(seed.wrapping_mul(104729).wrapping_add(id));
         let (u, p) = gen_universe(&mut r, FEAT, &SMALL);
-        if id % 5 == 4 {
+        if id % 5 == 3 {
+            let ops = gen_overlap_ops(&mut r, &u, maxops);
+            let o = run_overlap(&u, &ops);
+            println!("{}", json!({"id": id, "mode": "overlap", "u": u, "ops": ops,
+                "answers": o["answers"], "calls": o["calls"]}));
+        } else if id % 5 == 4 {
             let o = run_solve(&u, &p);
             println!("{}", json!({"id": id, "mode": "solve", "u": u, "p": p,
                 "outcome": o["outcome"], "log": o["log"], "probes": o["probes"]}));
